@@ -5,6 +5,8 @@ import random
 import types
 
 from pyvc.report import Check, run_check, seed
+from pyvc.smt import budget_ms
+from checks.wp_common import run_wp
 from spec import runner
 
 
@@ -103,13 +105,20 @@ def main(tier):
     import sweetpea as sp
     from sweetpea._internal.constraint import ContinuousConstraint
     from sweetpea._internal.primitive import ContinuousFactorWindow, ContinuousFactor
-    ck = Check("C22", tier, "exploration",
+    ck = Check("C22", tier, "other",
+               "Deductive part (pyvc.wp on the real source, all inputs): Block._check_constraints returns True iff every ContinuousConstraint's predicate holds at every "
+               "trial, and the predicate is called on exactly that trial's values of the constraint's factors in the constraint's order (precondition of the abstract "
+               "predicate, so the callpre obligations carry it); ContinuousFactorWindow.get_window_val / _return_nan return, for every trial index, width, stride, start "
+               "and number of factors, the documented window: key -k holds the value at trial idx-k, NaN before the first trial, an all-NaN window before `start` and at "
+               "stride-skipped trials, exactly the keys 0..-(width-1), one dict for a single factor and a list of dicts otherwise (dicts, attribute reads, isinstance and "
+               "float('nan') are modelled as arrays / uninterpreted functions / an opaque constant). Bounded part: "
                "Bounded contract evaluation with recording distributions (deterministic counters, so every argument a distribution receives is observable): "
                "get_window_val against the documented window (all widths <= 3, strides <= 2, starts 0..3, one or two factors, every trial index); "
                "_check_constraints returns True iff every ContinuousConstraint predicate holds at every trial (all truth patterns over <= 4 trials x 2 constraints); "
                "end to end: one value per trial per continuous factor, a dependent discrete factor contributes that trial's level, a continuous one that trial's "
                "value, a window the documented dict; every constraint holds in what synthesize_trials returns; the discrete part stays valid. "
-               "No deductive part: the functions use dicts, float NaN and isinstance dispatch outside the pyvc.wp subset.")
+               "The resample loop of sample_continuous and the assembly in _sample_continuous (isinstance dispatch over user objects, distributions) stay bounded.")
+    run_wp(ck, ["check_constraints", "return_nan", "get_window_val"], budget_ms(tier), prefix="C22.wp.")
     ck.under_contract("sweetpea._internal.block:Block.sample_continuous", "sweetpea._internal.block:Block._sample_continuous", "sweetpea._internal.block:Block._check_constraints",
                       "sweetpea._internal.primitive:ContinuousFactorWindow.get_window_val", "sweetpea._internal.main:synthesize_trials")
     rng = random.Random(seed())
